@@ -255,6 +255,7 @@ func countBlock(spec *common.Spec, c Counters, ev *blockEvent, pre *absstate.Sta
 	post := ev.Post
 	if len(post.Validators) > len(pre.Validators) {
 		c.Add("deposits_new_validator", len(post.Validators)-len(pre.Validators))
+		c.Add("new_validator_deposit_in_"+pre.Fork, 1) // every fork has its own AddValidator
 	}
 	if len(b.Deposits) > len(post.Validators)-len(pre.Validators) {
 		c.Add("deposits_topup_or_skipped", len(b.Deposits)-(len(post.Validators)-len(pre.Validators)))
@@ -463,6 +464,20 @@ func countBlock(spec *common.Spec, c Counters, ev *blockEvent, pre *absstate.Sta
 			c.Add("payloads_default_pre_merge", 1)
 		} else {
 			c.Add("payloads_"+pre.Fork, 1)
+			h := b.Payload.Header
+			if h.BlobGasUsed != nil && h.ExcessBlobGas != nil && *h.BlobGasUsed != *h.ExcessBlobGas && *h.BlobGasUsed != "0" && *h.ExcessBlobGas != "0" {
+				c.Add("deneb_payload_blob_gas_fields_differ", 1)
+			}
+			// every field the header copies is non-default and no two scalar fields coincide
+			vals := []string{h.BlockNumber, h.GasLimit, h.GasUsed, fmt.Sprint(h.Timestamp), h.BaseFee}
+			distinct := map[string]bool{}
+			for _, v := range vals {
+				distinct[v] = true
+			}
+			if len(distinct) == len(vals) && !distinct["0"] && h.ExtraData != "" && h.LogsBloom != absstate.ZeroID &&
+				h.FeeRecipient != absstate.ZeroID && h.StateRoot != absstate.ZeroID && h.ReceiptsRoot != absstate.ZeroID {
+				c.Add("payload_header_fields_distinct_nonzero_"+pre.Fork, 1)
+			}
 		}
 		c.Add("withdrawals", len(b.Payload.Withdrawals))
 		for _, w := range b.Payload.Withdrawals {
